@@ -363,17 +363,24 @@ func RawString(s string, c Chooser) string {
 	return b.String()
 }
 
+// jsonWS: the four JSON whitespace characters, alone and combined.
+var jsonWS = []string{" ", "\t", "\n", "\r", "\r\n", " \t \r"}
+
+// litGap writes optional JSON whitespace (legal around every token of a JSON
+// text, and therefore anywhere between the backticks outside strings).
+func litGap(b *strings.Builder, c Chooser) {
+	if c.Choose("litws", 6) == 1 {
+		b.WriteString(jsonWS[c.Choose("litwskind", len(jsonWS))])
+	}
+}
+
 // JSONLiteral writes v between backticks.
 func JSONLiteral(v jv.Val, c Chooser) string {
 	var b strings.Builder
 	b.WriteByte('`')
-	if c.Choose("litws", 6) == 1 {
-		b.WriteByte(' ')
-	}
+	litGap(&b, c)
 	writeJSONLit(&b, v, c)
-	if c.Choose("litws", 6) == 1 {
-		b.WriteByte(' ')
-	}
+	litGap(&b, c)
 	b.WriteByte('`')
 	return b.String()
 }
@@ -387,11 +394,10 @@ func writeJSONLit(b *strings.Builder, v jv.Val, c Chooser) {
 		for i, e := range v.A {
 			if i > 0 {
 				b.WriteByte(',')
-				if c.Choose("litws", 6) == 1 {
-					b.WriteByte(' ')
-				}
 			}
+			litGap(b, c)
 			writeJSONLit(b, e, c)
+			litGap(b, c)
 		}
 		b.WriteByte(']')
 	case jv.Obj:
@@ -400,12 +406,13 @@ func writeJSONLit(b *strings.Builder, v jv.Val, c Chooser) {
 			if i > 0 {
 				b.WriteByte(',')
 			}
+			litGap(b, c)
 			b.WriteString(jsonString(m.K, c, true))
+			litGap(b, c)
 			b.WriteByte(':')
-			if c.Choose("litws", 6) == 1 {
-				b.WriteByte(' ')
-			}
+			litGap(b, c)
 			writeJSONLit(b, m.V, c)
+			litGap(b, c)
 		}
 		b.WriteByte('}')
 	default:
